@@ -1428,3 +1428,105 @@ func fieldTagOf(pkg *packages.Package, v *types.Var) string {
 	}
 	return tag
 }
+
+// iterChildSelectedByNamespace: where a handler walks the children of a stanza
+// with an xmlstream.Iter and acts on one because of its local name, the arm is
+// also dominated by a test of that child's namespace (or whole name). XMPP
+// payloads are identified by their expanded name: <received/> exists in
+// urn:xmpp:receipts, urn:xmpp:chat-markers:0 and urn:xmpp:carbons:2.
+// Returns the number of local-name arms examined.
+func iterChildSelectedByNamespace(c *cx, id string, in func(f *eng.Fn) bool) int {
+	n := 0
+	for _, f := range c.allFns() {
+		if f.Body == nil || !in(f) {
+			continue
+		}
+		g := f.Graph()
+		seen := map[string]bool{}
+		for _, ce := range g.CondEdges() {
+			for _, a := range ce.Atoms {
+				la := a.S
+				if !eng.Glob("eq(*.Name.Local,\"*\")", la) || !strings.Contains(la, "xmlstream.Iter.Current") || strings.Contains(la, ".Attr") {
+					continue
+				}
+				subj := strings.TrimPrefix(la[:strings.Index(la, ".Name.Local,")], "eq(")
+				lit := la[strings.Index(la, ".Name.Local,")+12 : len(la)-1]
+				if seen[la] {
+					continue
+				}
+				seen[la] = true
+				n++
+				pt := g.EdgeTarget(ce.E)
+				okd, _ := g.DominatedAny(pt, []string{"eq(" + subj + ".Name,*)", "eq(*," + subj + ".Name)", "stanza.Is(" + subj + ".Name,*)"})
+				if !okd {
+					for _, da := range g.DominatingAtoms(pt, "*"+subj+".Name.Space*") {
+						body := da
+						if strings.HasPrefix(da, "or(") && strings.HasSuffix(da, ")") {
+							body = da[3 : len(da)-1]
+						}
+						all := true
+						for _, d := range strings.Split(body, " | ") {
+							pre := "eq(" + subj + ".Name.Space,"
+							if !(strings.HasPrefix(d, pre) && strings.HasSuffix(d, ")") && !strings.Contains(d[len(pre):], "(")) {
+								all = false
+							}
+						}
+						if all {
+							okd = true
+						}
+					}
+				}
+				last := g.Blocks[ce.E.B].Nodes
+				pos := f.Pos()
+				if len(last) > 0 {
+					pos = last[len(last)-1].Pos()
+				}
+				c.r.Check(id, f, "child "+lit+" of the stanza acted on", "E-dec: a child picked out of a stanza by its local name is also tested for its namespace on every path into the arm", pos, okd, "only the local name is tested: a child called "+lit+" in any other namespace is taken for the protocol element")
+			}
+		}
+	}
+	return n
+}
+
+// timeLayoutsKeepFractions (C19.33): an encoder that writes a time.Time as text
+// uses a layout that keeps the sub-second part (time.RFC3339Nano or another
+// layout with a fractional-seconds field). time.RFC3339 drops it: the decoded
+// value is up to a second earlier than the one that was encoded. Layouts with
+// no seconds field at all (a zone offset) are not time stamps and are skipped.
+// Returns the number of Format calls examined.
+func timeLayoutsKeepFractions(c *cx, id string, in func(f *eng.Fn) bool) int {
+	n := 0
+	for _, f := range c.allFns() {
+		if f.Body == nil || !in(f) {
+			continue
+		}
+		for _, cl := range f.AllCalls() {
+			cid := f.CalleeID(cl)
+			var layoutArg ast.Expr
+			switch cid {
+			case "time.Time.Format":
+				if len(cl.Args) == 1 {
+					layoutArg = cl.Args[0]
+				}
+			case "time.Time.AppendFormat":
+				if len(cl.Args) == 2 {
+					layoutArg = cl.Args[1]
+				}
+			}
+			if layoutArg == nil {
+				continue
+			}
+			layout, ok := f.ConstStr(layoutArg)
+			if !ok {
+				continue
+			}
+			if !strings.Contains(layout, "05") {
+				continue // no seconds field: not a full time stamp
+			}
+			n++
+			okL := strings.Contains(layout, "05.0") || strings.Contains(layout, "05.9") || strings.Contains(layout, "05,0") || strings.Contains(layout, "05,9")
+			c.r.Check(id, f, "time layout "+types.ExprString(layoutArg), "E-trunc: a time stamp is written with its fractional seconds (the decoders accept them)", cl.Pos(), okL, "layout "+strconv.Quote(layout)+" has a seconds field and no fraction: the sub-second part of the value is dropped")
+		}
+	}
+	return n
+}
